@@ -185,6 +185,7 @@ def main():
     ap.add_argument("--tier", default=None)
     ap.add_argument("--seed", type=int, default=None)
     ap.add_argument("--no-build", action="store_true")
+    ap.add_argument("--no-gate", action="store_true")
     a = ap.parse_args()
     if a.pid == "replay":
         return replay(a.arg)
@@ -208,7 +209,7 @@ def main():
             log(out3[-3000:]); print("ERROR: harness does not build against /repo's working tree"); return 2
     else:
         coq_built = True
-    gate = coq_gate(pid) if coq_built else {"obligations": 0, "discharged": 0, "theorems": [], "problems": ["the Coq development does not build"]}
+    gate = {"obligations": 0, "discharged": 0, "theorems": [], "problems": []} if a.no_gate else coq_gate(pid) if coq_built else {"obligations": 0, "discharged": 0, "theorems": [], "problems": ["the Coq development does not build"]}
     # ---- suites
     rng = random.Random(seed * 1000003 + int(pid[1:]))
     tasks = []
